@@ -1,1 +1,82 @@
-Theorem C18_pending : True. Proof. exact I. Qed.
+(* C18 — parser modules are chosen by creator/component, fed the right data, contained. *)
+From Coq Require Import List NArith ZArith Bool Arith.
+From PV Require Import Base.Bytes Base.Lit Base.Json Base.PelTypes Model.Hexdump Model.Render Model.Pel Model.Env
+                       Proofs.UdFacts Proofs.EnvFacts Proofs.PluginFacts.
+Import ListNotations.
+Open Scope N_scope.
+
+(* the user-data parser consulted is udparsers.<creator><component id in 4 lower-case hex digits> ... *)
+Theorem C18_ud_name : forall cr comp, comp < 65536 ->
+  ud_module cr comp = L "udparsers." ++ (map lower_c (map lower_c cr) ++ hex_fixed hexdigL 4 comp)
+                       ++ L "." ++ (map lower_c (map lower_c cr) ++ hex_fixed hexdigL 4 comp).
+Proof. exact ud_module_name. Qed.
+Print Assumptions C18_ud_name.
+
+(* ... and receives that section's sub-type, version and exact payload; what the section shows is determined by its answer *)
+Theorem C18_ud_args : forall e c h cr d f,
+  (is_bmc cr && (h_comp h =? 8192)) = false -> allow_plugins c = true -> ud_import e (ud_module cr (h_comp h)) = IFound f ->
+  render_ud e c h cr d =
+    merge_value (base_fields e h cr (L "Created by"))
+      match f (h_sub h) (h_ver h) d with
+      | PRetJ j => UVJson j
+      | PRetT t => UVText t
+      | PRetEmpty => UVText []
+      | PNone => UVJson (JObj ((L "Error", js (none_error cr (h_comp h) (h_sub h) (h_ver h))) :: data_obj d))
+      | PNonStr => UVReject
+      | PRaise msg | PRaiseImport msg => UVJson (JObj ((L "Error", js (raise_error cr (h_comp h) (h_sub h) (h_ver h) msg)) :: data_obj d))
+      end.
+Proof. exact ud_parser_arguments. Qed.
+Print Assumptions C18_ud_args.
+
+(* the SRC parser is srcparsers.<creator>src and receives the reference code and hex words 2..9 in order *)
+Theorem C18_src_name : forall cr, src_module cr = L "srcparsers." ++ (map lower_c cr ++ L "src") ++ L "." ++ (map lower_c cr ++ L "src").
+Proof. exact src_module_name. Qed.
+Print Assumptions C18_src_name.
+Theorem C18_src_args : forall e cr ascii ws f, src_import e (src_module cr) = IFound f ->
+  src_details e cr ascii ws =
+    match f ascii (ws ++ repeat (L "00000000") (8 - length ws)) with
+    | PRetJ JNull | PRetEmpty | PNone | PRaise _ | PRaiseImport _ => Some []
+    | PRetJ j => Some [(L "SRC Details", j)]
+    | PRetT t => Some [(L "@loads_strict:SRC Details", js t)]
+    | PNonStr => None
+    end.
+Proof. exact src_parser_arguments. Qed.
+Print Assumptions C18_src_args.
+
+(* for BMC SRCs: the component named by the reference code, or the hostboot parser for BC codes *)
+Theorem C18_osrc_routing : forall lookup refcode words,
+  osrc lookup refcode words =
+    match lookup (if text_eqb (firstn 2 refcode) (L "BC") then L "srcparsers.bsrc.bsrc"
+                  else L "srcparsers.o" ++ map lower_c (firstn 2 (skipn 4 refcode)) ++ L "00.o" ++ map lower_c (firstn 2 (skipn 4 refcode)) ++ L "00") with
+    | IFound f => f refcode words
+    | INotFound => PRetJ JNull
+    | IBroken msg => PRaise msg
+    end.
+Proof. exact osrc_routing. Qed.
+Print Assumptions C18_osrc_routing.
+
+(* a parser that raises, cannot be imported or returns nothing affects only its own section: error note plus raw hex dump
+   (from which the payload is recovered) ... *)
+Theorem C18_contained_ud : forall e c h cr d, parser_failed e c cr (h_comp h) (h_sub h) (h_ver h) d ->
+  exists o er, render_ud e c h cr d = Some o /\ obj_get o (L "Error") = Some (JStr er).
+Proof. exact ud_error_note. Qed.
+Print Assumptions C18_contained_ud.
+(* ... or no SRC details; the section itself is still displayed (render_src only appends what src_details returns) *)
+Theorem C18_contained_src : forall e cr ascii ws,
+  (match src_import e (src_module cr) with
+   | IFound f => match f ascii (pad8 ws) with PNone | PRaise _ | PRaiseImport _ | PRetEmpty => True | _ => False end
+   | _ => True
+   end) -> src_details e cr ascii ws = Some [].
+Proof. exact src_parser_contained. Qed.
+Print Assumptions C18_contained_src.
+
+(* with --skip-parser-plugins no parser module is consulted: the decode is the same whatever modules exist *)
+Theorem C18_disabled : forall e1 e2 consider data,
+  (forall a b, comp_name e1 a b = comp_name e2 a b) ->
+  decode e1 {| allow_plugins := false |} consider data = decode e2 {| allow_plugins := false |} consider data.
+Proof. exact disabled_ignores_modules. Qed.
+Print Assumptions C18_disabled.
+
+Example C18_example : ud_module (L "B") 4660 = L "udparsers.b1234.b1234" /\
+  osrc_target (L "BD8DE510") = L "srcparsers.oe500.oe500" /\ osrc_target (L "BC8A1234") = L "srcparsers.bsrc.bsrc".
+Proof. vm_compute. repeat split; reflexivity. Qed.
